@@ -23,7 +23,7 @@ static const double K_SERIES = 2.0, K_EXACT = 4.0, K_EXACT_EXTREME = 8.0;
 
 struct Pair { gh::EllSpec e; double lat1, lon1, lat2, lon2; std::string sec, regime, cls, kx, ks; };     // kx / ks: known-defect regime of the exact / series solver ("" = none)
 struct Inv { double a12, s12, azi1, azi2, m12, M12, M21, S12; };
-struct RefKnown { bool have = false; q128 s12, azi1, azi2, m12, lat2, lon12; double d = 0; };     // constructed answer (for the unrounded point 2) and rounding displacement
+struct RefKnown { bool have = false; q128 s12, azi1, azi2, m12, M21, lat2, lon12; double d = 0; };     // constructed answer (for the unrounded point 2) and rounding displacement
 
 static q128 lon12_exact(const Pair& p) { return remainderq((q128)p.lon2 - (q128)p.lon1, 360); }
 static double tol_of(const gh::Solvers& S, bool series) {
@@ -85,17 +85,24 @@ static std::string known_family(bool series, double f, double lat1, double lat2,
     bool nearpole = std::fabs(b1) > d80 && std::fabs(b2) > d80;
     if (sep < (nearpole ? (f < -2 ? 1e-8L : 3e-12L) : 1e-13L)) return "exact/nearly-coincident-points";
   }
+  // D8 both solvers: both points within 1e-3 deg of the same pole on (almost, not exactly) opposite meridians, 0 < 180 - lon12 <= 1e-12 deg:
+  // InverseStart's final sanity check overwrites the short-line azimuth with azi1 = +-90 when omg12 rounds above pi
+  if (lat1 * lat2 > 0 && m1 > 89.999 && m2 > 89.999 && aL < 180 && 180 - L <= 1e-12) return "short-line-across-pole-lon12-nearly-180";
   // D7 both solvers: prolate, lat2 = -lat1 +- 1..4 ulp (but not exactly -lat1), lon12 = 180 or slightly less (up to 3e-12 deg; up to 3e-6 deg
   // when |n| > 0.1, i.e. f < -0.2): NaN outputs
   if (f < 0 && lat1 != -lat2 && std::fabs(lat1 + lat2) <= 4 * ref::ulp_d(mx) && 180 - L <= (f < -0.2 ? 3e-6 : 3e-12)) return "prolate-lon180-lat2-nearly-minus-lat1";
+  // D10 exact: prolate with |n| > 0.1 (f < -0.2), lon12 within one ulp of 180 but not exactly 180 (AngDiff returns +-180 with a non-zero
+  // error term): a non-shortest near-meridional geodesic with m12 < 0 is returned for ~10 % of the latitude pairs
+  if (!series && f < -0.2 && aL < 180 && 180 - L < 3e-14) return "exact/prolate-lon12-within-1ulp-of-180";
   // D1 exact: strongly prolate (f < -2), opposite meridians exactly, both points in the same hemisphere: over-the-pole meridian with m12 < 0
   if (!series && f < -2 && aL == 180 && lat1 * lat2 > 0) return "exact/very-prolate-lon180-same-hemisphere";
   // D2 exact: prolate with |n| > 0.1 (f < -0.2), both points within 1 deg of the equator (not both on it), lon12 > 90
-  if (!series && f < -0.2 && m1 < 1 && m2 < 1 && !on_eq && L > 90) return "exact/prolate-near-equatorial";
+  // (for latitudes below 1e-12 deg any longitude difference above 1 deg)
+  if (!series && f < -0.2 && m1 < 1 && m2 < 1 && !on_eq && (L > 90 || (mx < 1e-12 && L > 1))) return "exact/prolate-near-equatorial";
   // D4 exact: very oblate (f > 0.35), both points ON the equator, lon12 just beyond the end (1-f) 180 of the equatorial regime
   if (!series && f > 0.35 && on_eq && L > lim && L < lim * (1 + 1e-6)) return "exact/very-oblate-equatorial-just-beyond-limit";
-  // D6 exact: oblate with |n| > 0.1 (f > 0.18), both points within 1e-12 deg of the equator (not both on it), lon12 below the equatorial limit band
-  if (!series && f > 0.18 && mx < 1e-12 && !on_eq && L <= 0.99 * lim) return "exact/very-oblate-near-equatorial-below-limit";
+  // D6 both solvers (series: f in (0.18, 0.2]): oblate with |n| > 0.1 (f > 0.18), both points within 1e-12 deg of the equator (not both on it), lon12 below the equatorial limit band
+  if (f > 0.18 && mx < 1e-12 && !on_eq && L <= 0.99 * lim) return "very-oblate-near-equatorial-below-limit";
   // D3 both solvers: oblate, both points within 1e-8 deg of the equator (not both on it), lon12 within 1 % of (1-f) 180
   if (f > 0 && mx < 1e-8 && !on_eq && L > 0.99 * lim && L < std::min(180.0, 1.01 * lim)) return "oblate-equatorial-limit";
   // D9 both solvers: oblate with |n| > 0.1 (f > 0.18: no astroid start), lat2 = -lat1 to 1e-3 relative, |lat| < 2 deg, lon12 within 0.1 % of the
@@ -288,11 +295,13 @@ static void check_pair(Ctx& c, Pair& p, const Opt& opt) {
         auto e1of = [&](double azi1) { return (double)fabsq(remainderq((q128)azi1 - rk.azi1, 360)) * M_PI / 180 * m; };
         auto e2of = [&](double azi2) { q128 dalp = remainderq((q128)azi2 - rk.azi2, 360) * ref::deg<q128>(); return (double)fabsq(sinq(dalp) * cosq(dlam) - cosq(dalp) * sinq(dlam) * sphi) * m; };
         double e = std::max(e1of(o.azi1), e2of(o.azi2));
+        // a displacement d of point 2 turns azi1 by d/m12 and azi2 by |M21| d/m12 (first order)
+        const double tolaz = T + 1.1 * rk.d * (1 + std::max(1.0, (double)fabsq(rk.M21)));
         // documented alternatives where the rounded pair has two equally short geodesics
         if (anti_lat_eff(p.lat1, p.lat2)) e = std::min(e, std::max(e1of(o.azi2), e2of(o.azi1)));
         if (fabsq(lon12q) == 180) { e = std::min(e, std::max(e1of(-o.azi1), e2of(-o.azi2))); if (anti_lat_eff(p.lat1, p.lat2)) e = std::min(e, std::max(e1of(-o.azi2), e2of(-o.azi1))); }
-        obsv(c, p, sv == "series" ? 's' : 'x', "constructed: azimuth error*|m12| / (tolerance + 2 rounding) [" + sv + "]", e / (T + 2 * rk.d), wit(p, solver));
-        if (e > T + 2 * rk.d) report(c, p, sv == "series" ? 's' : 'x', "oracle:C02/" + sv + "/constructed/azimuth/" + subregime(p, o), wout(wit(p, solver), o).str("ref_azi1", ref::qstr(rk.azi1, 22)).str("ref_azi2", ref::qstr(rk.azi2, 22)).f("err_m", e).f("tol_m", T + 2 * rk.d));
+        obsv(c, p, sv == "series" ? 's' : 'x', "constructed: azimuth error*|m12| / (tolerance + 2 rounding) [" + sv + "]", e / tolaz, wit(p, solver));
+        if (e > tolaz) report(c, p, sv == "series" ? 's' : 'x', "oracle:C02/" + sv + "/constructed/azimuth/" + subregime(p, o), wout(wit(p, solver), o).str("ref_azi1", ref::qstr(rk.azi1, 22)).str("ref_azi2", ref::qstr(rk.azi2, 22)).f("err_m", e).f("tol_m", tolaz));
         c.event("constructed azimuths judged");
       }
     };
@@ -378,7 +387,7 @@ static void sec_constructed(Ctx& c, uint64_t) {
   ref::GeodPos<q128> P = L.at_arc((q128)a12);
   p.lat2 = (double)P.lat2; if (std::fabs(p.lat2) > 90) p.lat2 = std::copysign(90.0, p.lat2);
   p.lon2 = (double)((q128)p.lon1 + P.lon12);
-  RefKnown rk; rk.s12 = P.s12; rk.azi1 = (q128)azi1; rk.azi2 = P.azi2; rk.m12 = P.m12; rk.lat2 = P.lat2; rk.lon12 = P.lon12;
+  RefKnown rk; rk.s12 = P.s12; rk.azi1 = (q128)azi1; rk.azi2 = P.azi2; rk.m12 = P.m12; rk.M21 = P.M21; rk.lat2 = P.lat2; rk.lon12 = P.lon12;
   { q128 X1[3], X2[3]; ref::to_xyz<q128>(S.E, P.lat2, P.lon12, X1); ref::to_xyz<q128>(S.E, (q128)p.lat2, (q128)p.lon2 - (q128)p.lon1, X2); rk.d = (double)ref::dist3(X1, X2) * 1.0001; }
   // unique-shortest criterion: sigma12 < pi and longitudinal extent < 180 (the latter matters on prolate ellipsoids)
   rk.have = a12 < 180 && (double)fabsq(P.lon12) < 180 - 1e-9;
@@ -470,7 +479,8 @@ static void sec_near_equator(Ctx& c, uint64_t) {
 
 // ---- directed catalogue (unconstructed singular sets); every case gets the global scan
 struct Dir { double f, lat1, lon1, lat2, lon2; const char* tag; };
-static const double DIR_F[] = {gh::WGS84_F, 0, 1.0 / 150, -1.0 / 150, 0.02, -0.02, 0.1, -0.1, 0.2, -0.2, 0.5, -1.0, 0.9, -9.0, 0.99, -99.0, 1e-6, -1e-6, -1.0 / 300};
+// (0.125 and 0.5: f * 180 is exact, so the solver's floating-point test (180 - lon12) >= f * 180 can be hit with equality)
+static const double DIR_F[] = {gh::WGS84_F, 0, 1.0 / 150, -1.0 / 150, 0.02, -0.02, 0.1, -0.1, 0.2, -0.2, 0.5, -1.0, 0.9, -9.0, 0.99, -99.0, 1e-6, -1e-6, -1.0 / 300, 0.125};
 static const int N_DIR_F = sizeof DIR_F / sizeof DIR_F[0];
 // historic regression inputs of tests/CMakeLists.txt (GeodSolve -i ...): {a, f, lat1, lon1, lat2, lon2}
 static const double REG[][6] = {
